@@ -3,6 +3,7 @@ from __future__ import absolute_import
 import os
 
 from trashcli.lib.dir_reader import DirReader
+from trashcli.lib.path_of_backup_copy import is_trashinfo_name
 
 
 class TrashDirReader:
@@ -24,5 +25,5 @@ class TrashDirReader:
     def list_trashinfo(self, path):
         info_dir = os.path.join(path, 'info')
         for entry in self.dir_reader.entries_if_dir_exists(info_dir):
-            if entry.endswith('.trashinfo'):
+            if is_trashinfo_name(entry):
                 yield os.path.join(info_dir, entry)
